@@ -19,6 +19,7 @@ import (
 	"strconv"
 	"strings"
 	"sync"
+	"sync/atomic"
 	"time"
 
 	"verif/sim/simrt"
@@ -204,6 +205,9 @@ func workerEnv() []string {
 	return env
 }
 
+// hangSecs: journal silence after which a worker is considered hung.
+const hangSecs = 45
+
 var reEnd = regexp.MustCompile(`^E (\d+)(?: ([0-9a-f]{16}) (\d+))?(?: V (\S*) (.*))?$`)
 
 // runChunk runs indices [from,to) in worker processes, restarting after a crash.
@@ -233,10 +237,31 @@ func (r *runner) runChunk(from, to uint64) {
 		sc := bufio.NewScanner(stdout)
 		sc.Buffer(make([]byte, 1<<20), 64<<20)
 		timer := time.AfterFunc(10*time.Minute+time.Until(r.deadline), func() { cmd.Process.Kill() })
-		var lastProgress = time.Now()
-		_ = lastProgress
+		// hang watchdog: a world normally takes milliseconds (an exhaustive sweep < 1 s). A worker that
+		// prints nothing for hangSecs is killed; the run it was in is reported as a crash-class
+		// violation "hang" (and must reproduce out of process like every crash class).
+		var lastProgress int64 = time.Now().UnixNano()
+		hung := int32(0)
+		stopWatch := make(chan struct{})
+		go func() {
+			tk := time.NewTicker(2 * time.Second)
+			defer tk.Stop()
+			for {
+				select {
+				case <-stopWatch:
+					return
+				case <-tk.C:
+					if time.Since(time.Unix(0, atomic.LoadInt64(&lastProgress))) > hangSecs*time.Second {
+						atomic.StoreInt32(&hung, 1)
+						cmd.Process.Kill()
+						return
+					}
+				}
+			}
+		}()
 		for sc.Scan() {
 			line := sc.Text()
+			atomic.StoreInt64(&lastProgress, time.Now().UnixNano())
 			switch {
 			case strings.HasPrefix(line, "B "):
 				v, _ := strconv.ParseInt(line[2:], 10, 64)
@@ -285,6 +310,10 @@ func (r *runner) runChunk(from, to uint64) {
 		}
 		err := cmd.Wait()
 		timer.Stop()
+		close(stopWatch)
+		if atomic.LoadInt32(&hung) == 1 {
+			stderr.WriteString("\nfatal error: hang: no journal progress for " + fmt.Sprint(int(hangSecs)) + " s (killed by the driver's watchdog)\n")
+		}
 		if err == nil && gotSummary {
 			return
 		}
